@@ -16,7 +16,7 @@ type Profile struct {
 	BigBodies bool // thorough tier
 }
 
-var methods = []string{"GET", "GET", "GET", "POST", "PUT", "HEAD", "DELETE", "OPTIONS", "PATCH", "PROPFIND"}
+var methods = []string{"GET", "GET", "GET", "POST", "PUT", "HEAD", "DELETE", "OPTIONS", "PATCH", "PROPFIND", "TRACE", "OPTIONS", "M-SEARCH", "PURGE"}
 var statuses = []int{200, 200, 200, 201, 404, 500, 204, 304, 301, 206}
 
 func bodyLen(r *core.Rand, big bool) int {
@@ -90,8 +90,28 @@ func genXm(r *core.Rand, pr Profile, sec bool, mayClose bool, seqMode bool) stri
 	core.Count("wire:client-" + pv + "-" + closeWord(askedClose(pv, ct)))
 	hs := r.Range(1, 9999)
 	kv = append(kv, fmt.Sprintf("hs=%d", hs))
-	if pr.Rich && r.Chance(1, 2) {
+	if m == "OPTIONS" && tf == "origin" && r.Chance(1, 3) {
+		kv = append(kv, "pk=6") // OPTIONS *
+	} else if pr.Rich && r.Chance(1, 2) {
 		kv = append(kv, fmt.Sprintf("pk=%d", r.Range(1, 5)))
+	}
+	// request headers with defined proxy semantics - all end-to-end - on every method, always on the
+	// methods that have rules of their own (semantics.go)
+	if rare := m == "TRACE" || m == "OPTIONS" || m == "PATCH" || m == "M-SEARCH" || m == "PURGE"; (pr.Rich && r.Chance(1, 3)) || (rare && r.Chance(2, 3)) {
+		mask := 0
+		for i := r.Range(1, 4); i > 0; i-- {
+			mask |= 1 << uint(r.Intn(len(SemanticHeaders)))
+		}
+		if rare && r.Bool() {
+			mask |= 1 << uint(r.Pick2(r.Pick2(0, 1), r.Pick2(2, 3))) // a Max-Forwards of some kind
+		}
+		kv = append(kv, fmt.Sprintf("sh=%d", mask))
+		core.Count("semantic-headers:" + m)
+	}
+	// a request that asks for a protocol switch is a request like any other
+	if r.Chance(1, 20) {
+		kv = append(kv, "upg="+r.Pick("ws", "ws", "h2c", "wsonly"))
+		core.Count("upgrade:" + closeWord(sec) + "-secure")
 	}
 	if pr.Rich {
 		kv = append(kv, fmt.Sprintf("hdr=%d", r.Intn(13)), fmt.Sprintf("ohdr=%d", r.Intn(9)))
@@ -167,7 +187,33 @@ func genXm(r *core.Rand, pr Profile, sec bool, mayClose bool, seqMode bool) stri
 	kv = append(kv, "rq="+rq, "rs="+rs)
 	kv = append(kv, errKinds(r, rq, rs)...)
 	kv = append(kv, consulted(r, rq != "pass" || rs != "pass")...)
-	if pr.Modifiers { // calls of the public context / session API without any effect the proxy may show
+	if pr.Modifiers && r.Chance(1, 8) && rq != "hijack" && rq != "insec" {
+		// ordered combinations of the context calls on one exchange (api.go); SkipRoundTrip means rq=skip
+		calls := []string{"skiprt", "skiplog", "apireq", "skiplog", "apireq"}
+		n := r.Range(2, 4)
+		var list []string
+		for i := 0; i < n; i++ {
+			list = append(list, calls[r.Intn(len(calls))])
+		}
+		api := strings.Join(list, ",")
+		if strings.Contains(api, "skiprt") {
+			if rq == "pass" {
+				rq = "skip"
+			} else if rq == "err" {
+				rq = "errskip"
+			}
+			for i := range kv {
+				if strings.HasPrefix(kv[i], "rq=") {
+					kv[i] = "rq=" + rq
+				}
+			}
+		}
+		if (rq == "skip" || rq == "errskip") && rb > 2000 && askedClose(pv, ct) {
+			capUnread()
+		}
+		kv = append(kv, "api="+api)
+		core.Count("api:ordered-context-calls")
+	} else if pr.Modifiers { // calls of the public context / session API without any effect the proxy may show
 		if r.Chance(1, 10) {
 			api := r.Pick("skiplog", "skiplog,insec", "insec")
 			if sec { // MarkSecure only where the session is secure anyway: on a plain connection it is the modifier's own downgrade-in-reverse, not the proxy's
@@ -235,13 +281,44 @@ func genXm(r *core.Rand, pr Profile, sec bool, mayClose bool, seqMode bool) stri
 		oct = pickConn(r, opv, opv == "10" && r.Chance(2, 3))
 	}
 	gz := r.Chance(1, 8)
+	setKV := func(key, val string) {
+		for i := range kv {
+			if strings.HasPrefix(kv[i], key+"=") {
+				kv[i] = key + "=" + val
+			}
+		}
+	}
+	// requests at the edge of what http.ReadRequest accepts: still requests the proxy read (semantics.go)
+	xr := ""
+	if !sec && mayClose && (pr.Rich || pr.Modifiers) && rq != "hijack" && rs != "hijack" && o != "trunc" && r.Chance(1, 25) {
+		xr = r.Pick("nohost10", "emptyhost", "hostdiff")
+		switch xr {
+		case "hostdiff":
+			tf = "abs"
+		case "nohost10":
+			tf, o, pv, rf = "origin", "fail", "10", "cl"
+			setKV("pv", pv)
+			setKV("rf", rf)
+		default:
+			tf, o = "origin", "fail"
+		}
+		setKV("tf", tf)
+		if o == "fail" && rb > 2000 && askedClose(pv, ct) {
+			capUnread()
+		}
+		kv = append(kv, "xr="+xr)
+		core.Count("edge-request:" + xr)
+	}
 	switch o {
 	case "fail":
 		fk := r.Pick("none", "head", "garbage")
+		if xr == "nohost10" || xr == "emptyhost" {
+			fk = "none"
+		} else
 		if seqMode && !sec && r.Chance(1, 3) {
 			fk = r.Pick("refuse", "dtimeout")
 		}
-		if seqMode && sec && r.Chance(1, 2) { // the https target's port does not hold a usable TLS server
+		if xr == "" && seqMode && sec && r.Chance(1, 2) { // the https target's port does not hold a usable TLS server
 			fk = r.Pick("tlsplain", "tlsplain", "tlsbadcert", "tlsclose")
 			core.Count("upfault:" + fk)
 		}
@@ -281,6 +358,10 @@ func genXm(r *core.Rand, pr Profile, sec bool, mayClose bool, seqMode bool) stri
 		core.Count("early:generated")
 	}
 	if sec {
+		if seqMode && o == "ok" && r.Chance(1, 5) {
+			kv = append(kv, "via=sniff") // the origin port tells a ClientHello from a cleartext request (upfault.go)
+			core.Count("upfault:via-sniff")
+		}
 		kv = append(kv, "sec=1")
 	}
 	return strings.Join(kv, " ")
@@ -389,6 +470,9 @@ func GenCase(r *core.Rand, pr Profile) []string {
 	if (pr.Rich || pr.Faults) && r.Chance(1, 40) {
 		return GenReuseCase(r)
 	}
+	if pr.Rich && r.Chance(1, 250) {
+		return GenUnreadCase(r, r.Pick2(4, r.Pick2(8, 16))<<20)
+	}
 	if pr.Faults && pr.Tunnels && r.Chance(1, 4) {
 		return GenDownstreamCase(r, pr)
 	}
@@ -466,7 +550,13 @@ func GenCase(r *core.Rand, pr Profile) []string {
 			ops = append(ops, genX(r, pr, false, true))
 		}
 		rq, rs := genMods(r, pr)
-		ops = append(ops, strings.TrimSpace(fmt.Sprintf("cblind dial=%s dk=%s rq=%s rs=%s %s", b01(r.Chance(1, 2)), r.Pick("refuse", "timeout", "eof"), rq, rs, strings.Join(errKinds(r, rq, rs), " "))))
+		dialOK := r.Chance(1, 2)
+		tg := ""
+		if dialOK && r.Chance(1, 2) { // the target answers k bytes and closes abortively; the client waits in silence (tunnelrst.go)
+			tg = fmt.Sprintf(" tg=rst k=%d", r.Pick2(r.Pick2(0, 1), r.Pick2(100, 5000)))
+			core.Count("tunnel:target-resets")
+		}
+		ops = append(ops, strings.TrimSpace(fmt.Sprintf("cblind dial=%s dk=%s rq=%s rs=%s %s", b01(dialOK), r.Pick("refuse", "timeout", "eof"), rq, rs, strings.Join(errKinds(r, rq, rs), " "))+tg))
 		for i := 0; i < r.Intn(3); i++ {
 			ops = append(ops, genX(r, pr, false, true))
 		}
@@ -588,6 +678,23 @@ func GenReuseCase(r *core.Rand) []string {
 		ops = append(ops, fmt.Sprintf("x m=%s tf=abs pv=11 ct=- hs=%d hdr=1 ohdr=1 rb=%d rf=cl rq=pass rs=pass o=ok st=%s ob=%d of=%s opv=11 oct=- gz=0%s",
 			m, r.Range(1, 9999), rb, r.Pick("200", "200", "404"), r.Range(1, 400), r.Pick("cl", "ch"), oi))
 	}
+	return append(ops, "end")
+}
+
+// GenUnreadCase: an upload of several MiB that the origin never reads while answering keep-alive
+// (unread.go), between ordinary exchanges on the same connection.
+func GenUnreadCase(r *core.Rand, size int) []string {
+	ops := []string{"conn mode=seq listener=" + r.Pick("plain", "plain", "shaped") + " shutdown=0"}
+	plain := func(i int) string {
+		return fmt.Sprintf("x m=GET tf=abs pv=11 ct=- hs=%d hdr=1 ohdr=1 rb=0 rf=cl rq=pass rs=pass o=ok st=200 ob=%d of=cl opv=11 oct=- gz=0", i, r.Range(1, 300))
+	}
+	if r.Bool() {
+		ops = append(ops, plain(1))
+	}
+	ops = append(ops, fmt.Sprintf("x m=%s tf=%s pv=11 ct=- hs=%d hdr=1 ohdr=1 rb=%d rf=cl rq=pass rs=pass o=ok st=%s ob=%d of=%s opv=11 oct=- gz=0 ur=1",
+		r.Pick("POST", "PUT"), r.Pick("abs", "origin"), r.Range(2, 9999), size, r.Pick("200", "201", "413"), r.Range(1, 300), r.Pick("cl", "ch")))
+	ops = append(ops, plain(3), plain(4))
+	core.Count("unread:upload-MiB-" + fmt.Sprint(size>>20))
 	return append(ops, "end")
 }
 
